@@ -123,6 +123,14 @@ pub proof fn lemma_put_plain(mid: Heap, new: Heap, p: int, v: VCell)
         if q != p { assert(mid.symbol_cell_interned(q)); }
     }
 }
+/// C18: within one well-formed heap two interned names share a cell exactly when they are the same name
+pub proof fn lemma_intern_unique(h: Heap, a: String, b: String)
+    requires h.wf(), h.table().contains_key(a), h.table().contains_key(b)
+    ensures (h.table()[a] == h.table()[b]) <==> a == b
+{
+    assert(h.interned_at(a, h.table()[a] as int));
+    assert(h.interned_at(b, h.table()[b] as int));
+}
 proof fn lemma_names_step(pre: Heap, old: Heap, it: int, name: String)
     requires pre.wf(), old.wf(), 0 <= it < old.len(), pre.swept_upto(old, it),
     ensures pre.name_swept(old, name, it),
@@ -367,11 +375,14 @@ UNITS = [{
                     old(self).wf(),'''},
             'loop_count': 1,
             'inserts': [
-                {'anchor': 'self.free(it);', 'where': 'before', 'text': 'let ghost pre = *self; proof { assert(pre.cell_swept(*old(self), it as int, it as int)); }'},
-                {'anchor': 'self.free(it);', 'where': 'after', 'text': 'proof { lemma_sweep_freed(pre, *self, *old(self), it as int); }'},
-                {'anchor': 'self.heap_map.set(it, State::Allocated);', 'where': 'before', 'text': 'let ghost pre = *self; proof { assert(pre.cell_swept(*old(self), it as int, it as int)); }'},
-                {'anchor': 'self.heap_map.set(it, State::Allocated);', 'where': 'after', 'text': 'proof { lemma_sweep_kept(pre, *self, *old(self), it as int); }'},
-                {'anchor': '_ => {', 'where': 'after', 'text': 'proof { assert(self.cell_swept(*old(self), it as int, it as int)); lemma_sweep_skip(*self, *old(self), it as int); }'},
+                {'loop_start': 0, 'text': 'let ghost pre = *self; proof { assert(pre.cell_swept(*old(self), it as int, it as int)); }'},
+                # one step, by the state the cell had: the lemma preconditions demand exactly the effect of free(it) resp. of
+                # resetting the mark, so a step that does something else fails here
+                {'loop_end': 0, 'text': '''proof {
+                    if pre.state(it as int) == 1 { lemma_sweep_freed(pre, *self, *old(self), it as int); }
+                    else if pre.state(it as int) == 2 { lemma_sweep_kept(pre, *self, *old(self), it as int); }
+                    else { lemma_sweep_skip(pre, *old(self), it as int); assert(*self == pre); }
+                }'''},
             ],
         },
         'impl Heap::free': {
